@@ -364,3 +364,15 @@ CONTRACTS = [
                                  'functions inlined (executed for real) across three layers', budget=400000),
 ] + [c for c in _c18.CONTRACTS if c.id == 'generator_wrapper']          # a suspended generator must hold neither changes nor an open transaction (shared with C18)
 
+
+
+def _share_two_databases():
+    """the session over two databases (C17's ledger harness) also decides what C19 says about such a session: every connection released, no session cache left behind"""
+    import sys
+    m = sys.modules.get('contracts.c17')
+    if m is not None and not hasattr(m, 'CONTRACTS'): return           # c17 is being imported and imports this module: it registers the contract itself
+    from contracts import c17
+    if not any(c.id == 'session.two_databases' for c in CONTRACTS): CONTRACTS.extend(c for c in c17.CONTRACTS if c.id == 'session.two_databases')
+
+
+_share_two_databases()
